@@ -194,6 +194,21 @@ pub fn run(args: &Args) {
             };
             let mut n = rng.range(1, 3);
             let want_hit = allow.contains("deleted-target-allowed");
+            if want_hit && rng.chance(2, 3) {
+                // aim at the reference corners: band starting at / ending at / just before a line some reference uses
+                let items: Vec<&Ast> = placed.iter().filter(|p| p.alive).map(|p| &p.ast).chain(names.iter().map(|n| &n.ast)).collect();
+                let owners: Vec<usize> = placed.iter().filter(|p| p.alive).map(|p| p.sheet).chain(names.iter().map(|n| n.sheet)).collect();
+                let used: Vec<u32> = used_lines(&items, &|i| sheets[i].clone(), &owners, &edited, is_row).into_iter().collect();
+                if !used.is_empty() {
+                    let line = *rng.pick(&used);
+                    p = match rng.below(4) {
+                        0 => line,
+                        1 => (line + 1).saturating_sub(n).max(1),
+                        2 => line + 1,
+                        _ => line.saturating_sub(1).max(1),
+                    };
+                }
+            }
             if !insert && !want_hit {
                 // base behaviour: the removed band must not contain any reference corner
                 let items: Vec<&Ast> = placed.iter().filter(|p| p.alive).map(|p| &p.ast).chain(names.iter().map(|n| &n.ast)).collect();
